@@ -232,6 +232,12 @@ def catalogue(type_cases, limit=None, salt="c", by_dim=True):
             for it in must.values():
                 da = it["tc"]["a"][2]
                 db = it["tc"]["b"][2] if it["tc"]["b"][0] != "none" else 0
+                if not db:
+                    # one-vector methods: every coordinate system of the dimension (a kernel may write into the column it was handed)
+                    for pa in coords.signatures(da):
+                        if pa != it["sa"]:
+                            covering.append(dict(it, sa=pa, sb=None))
+                    continue
                 for pa, pb in PAIR[da]:
                     sb = None
                     if db:
